@@ -539,6 +539,9 @@ func signature(name string, h *Hist) string {
 	if h.Cfg.Trusted {
 		s += ":trustedstorage"
 	}
+	if h.Cfg.GeneralHook {
+		s += ":generalhook"
+	}
 	if h.Cfg.Latest0 != 0 {
 		s += fmt.Sprintf(":latest%d", h.Cfg.Latest0)
 	}
